@@ -75,7 +75,7 @@ CHECKS = {
             'Signature.index/.bracket_start/.params/.to_string() and the captured scanner output vs the model in Coq (~23k cases) and vs inspect.signature, real calls of a probe function (binds iff no TypeError), inspect.getdoc, ast re-parsing.',
             'Coq kernel + vm_compute; call detection in broken code and process_params for wrappers are oracle-only (partial there).'),
     'C14': ('Coq proof over all fault schedules of the request/reply protocol state machine with crash points + vm_compute correspondence through a fault-injecting proxy helper',
-            'Theorems (9, closed; being updated for fix 4cbf54d): for every fault schedule and every op list — at most one helper death per op, a death fails exactly that op with InternalError, a stale Script fails with InternalError and no new death, a raising helper function is relayed and is not a crash; '
+            'Theorems (9, closed): for every fault schedule and every op list — at most one helper death per op, a death fails exactly that op with InternalError, a stale Script fails with InternalError and no new death, a raising helper function is relayed and is not a crash; '
             'any op on a non-stale Script that meets no fault returns the fault-free answer; a Script created after a crash gets a live helper of the next generation; helpers are started only to replace dead ones; helper-side states = queued deletions + live used ids (no leak, even with id re-use); '
             'every observed death went through cleanup (no zombies, pipes closed); refutation for the pre-fix truncated-reply handling. Tied to /repo per run with no source hook: the Environment\'s executable is harness/c14_proxy.py, which relays the real helper\'s pipes frame by frame and '
             'injects the scheduled fault (kill before/after relaying, truncated reply, at every request index of several scenarios, up to 3 consecutive crashes, create/drop cycles); the Gallina check_case must reproduce every per-op observation and the whole wire log.',
@@ -129,6 +129,16 @@ CHECKS = {
             'Coq kernel + vm_compute; where a hash order could enter outside the modelled sort/dedupe sites is explored only by the differential stream (partial there).'),
 }
 
+# second tie (round 2): the anchored function itself is translated from /repo on every run and proved equal to the model
+TIE = {
+    'C01': ('validate_line_column\'s wrapper', 'gen_validate_eq'),
+    'C04': ('_start_match/_fuzzy_match/match', 'gen_start_match_eq, gen_fuzzy_match_eq, gen_match_eq'),
+    'C06': ('the constants EXPRESSION_PARTS/_INLINE_NEEDS_PARENTHESES', 'gen_rule_is_new_rule, gen_expression_parts_is_model, gen_rule_names_are_modelled'),
+    'C11': ('CallDetails.calculate_index', 'gen_calculate_index_eq'),
+    'C15': ('the four limits of recursion.py', 'gen_limits_are_documented_limits'),
+    'C20': ('_remove_duplicates_from_path', 'gen_remove_duplicates_eq'),
+}
+
 NOT_YET = {
 }
 
@@ -140,6 +150,13 @@ def main():
         pid = p['id']
         if pid in CHECKS:
             tech, text, note = CHECKS[pid]
+            if pid in TIE:
+                what, ths = TIE[pid]
+                text += (' Translator tie (also per run): harness/pytrans.py re-reads %s from /repo with ast, emits a Gallina definition, and the '
+                         'committed GenProofs theorem(s) %s prove it equal to the model for ALL inputs (closed); a changed function breaks '
+                         'the proof or is refused by the fail-closed translator, and the streams then search for the failing input.' % (what, ths))
+                tech += ' + per-run translation of the anchored function to Gallina with a machine-checked equivalence to the model'
+                note += ' Trusted in addition: the translator and coq/Base/PyPrims.v (compared with CPython on every run).'
             checks.append(dict(
                 property_id=pid,
                 quick_cmd='./check %s --tier quick' % pid,
